@@ -47,7 +47,7 @@ theorem pre_check_no_panic (s : List Char) : parsePreCheck s ≠ .error .panic :
 /-- what an accepted pre-check means -/
 theorem pre_check_ok {s body : List Char} {D N : Nat} (h : parsePreCheck s = .ok (body, D, N)) :
     ∃ pst, preLoop body.length 0 body ⟨1, 0, []⟩ = .ok pst ∧ pst.stack = [] ∧
-      pst.maxDepth = D ∧ pst.nNodes = N ∧ D ≤ MAX_RECURSION_DEPTH := by
+      pst.maxDepth = D ∧ pst.nNodes = N ∧ D ≤ MAX_RECURSION_DEPTH + 1 := by
   unfold parsePreCheck at h
   cases hv : verifyChecksumL s with
   | panic => rw [hv] at h; simp [throw, throwThe, MonadExceptOf.throw] at h
@@ -75,9 +75,9 @@ theorem pre_check_ok {s body : List Char} {D N : Nat} (h : parsePreCheck s = .ok
           exact ⟨st, hp, hst, hD, hN, by omega⟩
 
 /-- the two `Vec::with_capacity` requests are linear in the input: at most `len + 1` nodes and a
-parent stack of at most `len` (in fact at most 402) entries — no unbounded allocation. -/
+parent stack of at most `len` (in fact at most 403 = `MAX_RECURSION_DEPTH + 1`) entries — no unbounded allocation. -/
 theorem pre_check_linear {s body : List Char} {D N : Nat} (h : parsePreCheck s = .ok (body, D, N)) :
-    N ≤ body.length + 1 ∧ D ≤ body.length ∧ D ≤ 402 ∧ body.length ≤ s.length := by
+    N ≤ body.length + 1 ∧ D ≤ body.length ∧ D ≤ 403 ∧ body.length ≤ s.length := by
   obtain ⟨pst, h1, _, h3, h4, h5⟩ := pre_check_ok h
   have := preLoop_linear h1 (Nat.le_refl _) (Nat.le_refl _) (Nat.le_refl _)
   rw [h3, h4] at this
@@ -184,11 +184,12 @@ theorem expr_parser_no_panic (s : List Char) : fromStrInner s ≠ .error .panic 
 
 example : fromStrInner "a{b(c),d}#".toList ≠ .error .panic := expr_parser_no_panic _
 
-/-- accepted trees have exactly the pre-checked number of nodes and depth ≤ 402
-(`MAX_RECURSION_DEPTH`): every node is reached from the root by at most 402 parent links. -/
+/-- accepted trees have exactly the pre-checked number of nodes and depth ≤ 403
+(`MAX_RECURSION_DEPTH + 1`, the bound `parse_pre_check` applies since /repo 4d088e26): every node
+is reached from the root by at most 403 parent links. -/
 theorem parse_tree_depth_bounded (s : List Char) (nodes : Array Node)
     (h : fromStrInner s = .ok nodes) :
-    0 < nodes.size ∧ ∀ i, i < nodes.size → ∃ d, d ≤ 402 ∧ HasDepth nodes i d := by
+    0 < nodes.size ∧ ∀ i, i < nodes.size → ∃ d, d ≤ 403 ∧ HasDepth nodes i d := by
   unfold fromStrInner at h
   cases hp : parsePreCheck s with
   | error e => rw [hp] at h; simp [throw, throwThe, MonadExceptOf.throw] at h
@@ -211,17 +212,18 @@ theorem parse_tree_depth_bounded (s : List Char) (nodes : Array Node)
 example : (fromStrInner "wsh(multi(2,A,B))".toList).toOption.map Array.size = some 5 := by
   decide +kernel
 
-/-- nesting one level deeper than the limit is an error, not a crash (403 levels) -/
-theorem depth_403_rejected :
-    err? (fromStrInner (List.replicate 403 '(' ++ List.replicate 403 ')'))
-      = some (.err (.maxRecursionDepthExceeded 403)) := by decide +kernel
+/-- nesting one level deeper than the limit is an error, not a crash (404 levels) -/
+theorem depth_404_rejected :
+    err? (fromStrInner (List.replicate 404 '(' ++ List.replicate 404 ')'))
+      = some (.err (.maxRecursionDepthExceeded 404)) := by decide +kernel
 
-theorem depth_402_accepted :
-    ∃ nodes, fromStrInner (List.replicate 402 '(' ++ List.replicate 402 ')') = .ok nodes ∧
-      nodes.size = 403 := by
-  have h : (parsePreCheck (List.replicate 402 '(' ++ List.replicate 402 ')')).toOption.map
-      (fun r => r.2) = some (402, 403) := by decide +kernel
-  cases hp : parsePreCheck (List.replicate 402 '(' ++ List.replicate 402 ')') with
+/-- nesting 403 — what a Miniscript of the maximal height 402 prints — is accepted -/
+theorem depth_403_accepted :
+    ∃ nodes, fromStrInner (List.replicate 403 '(' ++ List.replicate 403 ')') = .ok nodes ∧
+      nodes.size = 404 := by
+  have h : (parsePreCheck (List.replicate 403 '(' ++ List.replicate 403 ')')).toOption.map
+      (fun r => r.2) = some (403, 404) := by decide +kernel
+  cases hp : parsePreCheck (List.replicate 403 '(' ++ List.replicate 403 ')') with
   | error e => rw [hp] at h; cases h
   | ok r =>
     obtain ⟨body, D, N⟩ := r
@@ -230,7 +232,7 @@ theorem depth_402_accepted :
     obtain ⟨hD, hN⟩ := h
     subst hD; subst hN
     obtain ⟨pst, h1, h2, h3, h4, _⟩ := pre_check_ok hp
-    obtain ⟨nodes, hb, hsz, _⟩ := builder_matches_pre_check body 402 403 pst h1 h2 h3 h4
+    obtain ⟨nodes, hb, hsz, _⟩ := builder_matches_pre_check body 403 404 pst h1 h2 h3 h4
     exact ⟨nodes, by unfold fromStrInner; rw [hp]; exact hb, hsz⟩
 
 /-! ## `parse_num` -/
@@ -296,10 +298,10 @@ def parse_print_roundtrip_full : Prop :=
 
 /-- **the parser accepts everything the printer emits** (proved part of the round trip): for
 every well-formed tree (names free of `(){},#`, a node has brackets iff it has children) of depth
-≤ 402, `Tree::from_str (print t)` succeeds, without reaching a panic site, with exactly
+≤ 403, `Tree::from_str (print t)` succeeds, without reaching a panic site, with exactly
 `size t` nodes, none deeper than `depth t`.  Missing for `parse_print_roundtrip_full`: that the
 node table's names, bracket kinds and child counts are those of `t`. -/
-theorem printed_tree_accepted_partial (t : Tree) (hw : t.WF) (hd : t.depth ≤ 402) :
+theorem printed_tree_accepted_partial (t : Tree) (hw : t.WF) (hd : t.depth ≤ 403) :
     ∃ nodes, fromStrInner t.print = .ok nodes ∧ nodes.size = t.size ∧
       ∀ i, i < nodes.size → ∃ d, d ≤ t.depth ∧ HasDepth nodes i d := by
   have hp := parsePreCheck_print t hw hd
@@ -314,7 +316,7 @@ example : ∃ nodes, fromStrInner (crl "tr" [rnd "pk" [leaf "A"], leaf "B"]).pri
   exact ⟨n, h1, h2⟩
 
 /-- trees deeper than the limit are rejected with `MaxRecursionDepthExceeded` — never a crash -/
-theorem printed_deep_tree_rejected (t : Tree) (hw : t.WF) (hd : 402 < t.depth) :
+theorem printed_deep_tree_rejected (t : Tree) (hw : t.WF) (hd : 403 < t.depth) :
     err? (fromStrInner t.print) = some (.err (.maxRecursionDepthExceeded t.depth)) := by
   have hcl := print_clean t hw
   unfold fromStrInner parsePreCheck
@@ -326,7 +328,7 @@ theorem printed_deep_tree_rejected (t : Tree) (hw : t.WF) (hd : 402 < t.depth) :
   rw [h]
   simp only [preLoop, adv, pure, Except.pure, List.length_nil, Nat.zero_add]
   have e1 : max 0 t.depth = t.depth := by omega
-  have : t.depth > MAX_RECURSION_DEPTH := by simp only [MAX_RECURSION_DEPTH]; omega
+  have : t.depth > MAX_RECURSION_DEPTH + 1 := by simp only [MAX_RECURSION_DEPTH]; omega
   rw [e1]
   simp only [this, if_true, throw, throwThe, MonadExceptOf.throw, err?]
 
